@@ -51,6 +51,17 @@ static Reg r_rev("utmrev", [](const Args& a) {
   int zone = std::atoi(a[0].c_str()); bool northp = a[1] == "1"; double x = unhx(a[2]), y = unhx(a[3]); bool mg = a[4] == "1";
   double lat = SENT, lon = SENT, g = SENT, k = SENT;
   std::string e = guarded([&] { UTMUPS::Reverse(zone, northp, x, y, lat, lon, g, k, mg); });
+  // UTMUPS.hpp documents the accepted rectangles (km): UTM x [0, 1000], y [-9100, 9600] "north" / [900, 19600] "south"; UPS x and y [1200, 2800] north /
+  // [700, 3300] south; all shrunk by 100 km with mgrslimits.  Strictly inside => accepted, strictly outside => rejected (the edges are the model's business).
+  if (zone >= 0 && zone <= 60 && std::isfinite(x) && std::isfinite(y)) {
+    double pad = mg ? 1e5 : 0, xl, xh, yl, yh;
+    if (zone > 0) { xl = 0; xh = 10e5; yl = northp ? -91e5 : 9e5; yh = northp ? 96e5 : 196e5; }
+    else { xl = yl = northp ? 12e5 : 7e5; xh = yh = northp ? 28e5 : 33e5; }
+    xl += pad; yl += pad; xh -= pad; yh -= pad;
+    bool inside = x > xl && x < xh && y > yl && y < yh, outside = x < xl || x > xh || y < yl || y > yh;
+    if (inside && !e.empty()) bad("documented-range", "UTMUPS::Reverse rejects coordinates strictly inside the documented range");
+    if (outside && e.empty()) bad("documented-range", "UTMUPS::Reverse accepts coordinates strictly outside the documented range");
+  }
   if (!e.empty()) {
     emit(e); if (e != "!E") bad("foreign-exception", e);
     if (lat != SENT || lon != SENT || g != SENT || k != SENT) bad("output-modified-on-throw", "UTMUPS::Reverse threw but changed an output argument");
